@@ -73,7 +73,7 @@ def h_roadm(ctx, policy, override, k, props, sym_maxloss=True):
         'roadm-path-impairments-id': 0,
         'roadm-express-path': [{'frequency-range': {'lower-frequency': lo_, 'upper-frequency': hi_},
                                 'roadm-maxloss': (10 * log10(ctx, maxloss_band[b]) if sym_maxloss else 0.0),
-                                'roadm-pmd': pmd_imp, 'roadm-pdl': pdl_imp}
+                                'roadm-pmd': pmd_imp, 'roadm-pdl': pdl_imp, 'roadm-osnr': 30.0, 'roadm-noise-figure': 20.0}
                                for b, (lo_, hi_) in enumerate(ranges)]}]
     maxloss_ch = [maxloss_band[0 if FREQS[i] < split or nb == 1 else 1] for i in range(k)]
     roadm = Roadm(uid='roadm', params=params)
